@@ -6,6 +6,9 @@ FIRST = {  # result of the FIRST run of my checks against the seed, recorded whe
     "C16-2": "missed", "C17-1": "missed", "C18-2": "missed", "C12-2": "missed", "C15-2": "missed", "C09-1": "missed", "C10-1": "missed",
     "C10-2": "missed", "C19-2": "missed", "C19-1": "exit 2 (vacuous-rule), no finding", "C06-2": "other property only (C01.a)",
     "C08-2": "other property only (C03.e)",
+    "C01-4": "other property only (C11.b)", "C03-3": "missed", "C03-4": "other property only (C02.a, C08.e)", "C02-4": "missed",
+    "C04-3": "exit 2 in C05 (anchor-vanished), no finding", "C04-4": "missed", "C05-3": "missed", "C09-4": "missed", "C10-3": "missed", "C10-4": "missed",
+    "C16-4": "exit 2 (anchor-vanished), no finding",
     "C11-1": "missed", "C11-2": "missed", "C07-1": "missed", "C07-2": "missed", "C20-1": "missed", "C13-2": "missed",
 }
 ADDED = {"C01-2": "C01.d fresh-only cursor", "C02-2": "C09.d/C02.h owner re-arm protocol", "C04-1": "C04.b children-before-clear", "C04-2": "C04.g accessor family",
@@ -15,6 +18,10 @@ ADDED = {"C01-2": "C01.d fresh-only cursor", "C02-2": "C09.d/C02.h owner re-arm 
          "C19-2": "C19.g match scope", "C19-1": "C19.b full-ordering requirement (finding instead of exit 2)", "C06-2": "C06.e rank pass shared into C06",
          "C08-2": "C08.f passive reader shared into C08", "C11-1": "C11.f leaf registration", "C11-2": "C11.b2 modified-leaves guard",
          "C07-1": "C07.c namespace-scope globals + thread_local markers", "C07-2": "C07.e intern lookups cover every field",
+         "C01-4": "C01.g (C11.b shared into C01)", "C03-3": "C03.e explicit active list", "C03-4": "C03.g (C02.a shared into C03)",
+         "C02-4": "C09.e / C02.h start -> propagate for try_except too", "C04-3": "C05.b missing window roll is a finding; C04.i shares C05.b/g",
+         "C04-4": "C05.g removal tables / C04.i", "C05-3": "C05.g removal tables", "C09-4": "C09.g capture ordinals", "C10-3": "C10.k key-source compatibility",
+         "C10-4": "C10.k per-cycle membership list", "C16-4": "C16.f wake-all requirement (finding instead of exit 2)",
          "C20-1": "C20.d all container captures", "C13-2": "C13.k slot-id bounds (slot ids are sparse)"}
 rows = []
 for d in sorted(glob.glob("/verif/seeded/*/meta.json")):
@@ -39,7 +46,7 @@ print("\n".join(rows))
 n = len(rows)
 caught = sum(1 for r in rows if "| caught |" in r)
 print(f"\nTotals: {n} seeded changes kept (each confirmed by me); first run: {caught} reported by the property's own check, "
-      f"{sum(1 for r in rows if 'other property only' in r)} only by another property's check, {sum(1 for r in rows if 'exit 2' in r)} analysis error, "
+      f"{sum(1 for r in rows if 'other property only' in r)} only by another property's check, {sum(1 for r in rows if 'exit 2' in r)} analysis error (exit 2), "
       f"{sum(1 for r in rows if '| missed |' in r)} missed; now all {n} are reported by their own property's check "
       f"({sum(1 for d in glob.glob('/verif/seeded/*/meta.json') if json.load(open(d)).get('detected_by_own_property'))} verified by tools/keep_seed.py).")
 
